@@ -57,9 +57,12 @@ def KState.setDetachedRow (s : KState) (k : Key) (d : Bool) : KState :=
     let s := s.modify k fun n => { n with detached := d }
     if n.detached ≠ d then s.flagReadySinks k else s
 
-/-- The creator-kind triggers and the CHECKs `creator IS NOT NULL OR detached`, `creator != i`. -/
+/-- The creator-kind triggers and the CHECKs of the `node` table: `creator IS NOT NULL OR detached`,
+`creator != i` for every node but the root, and for the root `creator IS i` and `NOT detached`
+(the root row can never be re-parented or detached). -/
 def KState.creatorAllowed (s : KState) (k : Key) (c : Option Key) (d : Bool) : Bool :=
-  match c with
+  if k.kind = .root then c = some k && !d
+  else match c with
   | some ck =>
     (match s.find? ck with
      | some cn => creatorKindOk k.kind cn.key.kind
